@@ -444,6 +444,27 @@ class Program:
                 else:
                     return UNKNOWN
             return "".join(parts)
+        if isinstance(e, ast.Call) and isinstance(e.func, ast.Name) and e.func.id in ("frozenset", "set", "tuple", "list", "dict", "sorted") and not e.keywords \
+                and len(e.args) <= 1 and not (local and e.func.id in local):
+            # a constructor of a constant container over a constant argument
+            if not e.args:
+                return {"frozenset": frozenset(), "set": frozenset(), "tuple": (), "list": [], "dict": {}, "sorted": UNKNOWN}[e.func.id]
+            v = self.const(mi, e.args[0], local, d)
+            if v is UNKNOWN:
+                return UNKNOWN
+            try:
+                if e.func.id in ("frozenset", "set"):
+                    return frozenset(v)
+                if e.func.id == "tuple":
+                    return tuple(v)
+                if e.func.id == "list":
+                    return list(v)
+                if e.func.id == "sorted":
+                    return sorted(v)
+                if e.func.id == "dict":
+                    return dict(v)
+            except (TypeError, ValueError):
+                return UNKNOWN
         return UNKNOWN
 
     def _const_of_resolved(self, r, depth):
